@@ -67,13 +67,19 @@ pub fn exec_action(w: &Rc<World>, a: &Action) {
             let n = st.constant(norm(*v));
             w.register(NodeH::I(n), RK::Const(MV::I(norm(*v))), None, true, true, 1);
         }
-        Action::NewMap { src, f, fx } => {
+        Action::NewMap { src, f, fx, via } => {
             let Some(s) = w.pick(Pool::I, *src) else { return skipped(w, "no node") };
             let hb = hb_of(w, &[s]) + 1;
             if !fits(w, hb) { return skipped(w, "height") }
             let input = incr_i(w, s).unwrap();
             let hid = w.next_hid();
-            let n = input.map(map1_fn(w, hid, *f, fx.clone()));
+            let mut mf = map1_fn(w, hid, *f, fx.clone());
+            let n = match *via % 4 {
+                0 => input.map(mf),
+                1 => input.map_cyclic(move |_me, x| mf(x)),
+                2 => input.enumerate(move |_k, x| mf(x)),
+                _ => input.pipe(move |i| i.map(mf)),
+            };
             w.register(NodeH::I(n), RK::Map { src: s, f: *f }, None, true, all_clean(w, &[s]), hb);
         }
         Action::NewMapP { src, f } => {
@@ -583,7 +589,10 @@ pub fn exec_effect(w: &Rc<World>, e: &Effect, arg: Option<MV>) {
         Effect::GetVar { var } => {
             let Some(vid) = w.pick_var(*var) else { return skipped(w, "no var") };
             let val = match w.vars.borrow()[vid].h.as_ref().unwrap() {
-                VarH::I(v) => MV::I(v.get()),
+                VarH::I(v) => {
+                    let _ = v.was_changed_during_stabilisation();
+                    MV::I(v.get())
+                }
                 VarH::P(v) => v.get().mv(),
             };
             act(w, Act::GetVar { vid, val });
@@ -668,6 +677,12 @@ pub fn exec_effect(w: &Rc<World>, e: &Effect, arg: Option<MV>) {
         Effect::IsStable => {
             let Some(st) = w.state() else { return skipped(w, "no state") };
             let res = st.is_stable();
+            // further read-only public calls made from inside callbacks: they must return (C04)
+            let _ = st.is_stabilising();
+            let _ = st.stats();
+            if w.dot_reads.get() {
+                let _ = st.weak().save_dot_to_string();
+            }
             act(w, Act::IsStable { res });
         }
         Effect::NestedStabilise => {
